@@ -24,15 +24,16 @@ def hexVal (c : Char) : Option Nat :=
 def renderHex (bs : Bytes) : String :=
   String.ofList (bs.flatMap (fun b => [hexDigit (b / 16 % 16), hexDigit (b % 16)]))
 
-def parseHexChars : List Char → Option Bytes
-  | [] => some []
-  | [_] => none
-  | a :: b :: rest =>
-    match hexVal a, hexVal b, parseHexChars rest with
-    | some x, some y, some r => some ((x * 16 + y) :: r)
-    | _, _, _ => none
-
-def parseHex (s : String) : Option Bytes := parseHexChars s.toList
+/-- hex text to bytes; a loop over the UTF-8 bytes of the text (64 KiB items: no deep recursion) -/
+def parseHex (s : String) : Option Bytes :=
+  let bs := s.toUTF8
+  if bs.size % 2 != 0 then none
+  else
+    let r := (List.range (bs.size / 2)).foldl (fun (acc : Option (Array Nat)) i =>
+      match acc, hexVal (Char.ofNat (bs.get! (2 * i)).toNat), hexVal (Char.ofNat (bs.get! (2 * i + 1)).toNat) with
+      | some a, some x, some y => some (a.push (x * 16 + y))
+      | _, _, _ => none) (some (Array.mkEmpty (bs.size / 2)))
+    r.map Array.toList
 
 /-- one term of an item expression: `6162` or `6162*300` (the bytes repeated 300 times) -/
 def parseTerm (s : String) : Option Bytes :=
